@@ -17,7 +17,7 @@ from .fsrun import FS
 from .resultrun import Tagged, metric_objs
 
 INFO = {
-    "explanation": "Rounds 4/5: (R15.9) a plain metric call after a call with per-call options hands the kernel the same arguments as on an untouched metric object; (R15.5) parallel map helpers are verified order preserving on 0..5 symbolic items for worker counts 1,2,3,5 and None with 1,2,3,16 cores; R15.3 compares the whole reachable state of evaluators; R15.6 is definite only for state derived from call arguments, the aggregator's cache-like state is decided by R16.8. (R15.1) ALIAS/EFFECT: evaluate (three input types, with and without class groups), panoptic_evaluate, the result constructor and the metric call are interpreted with abstract arrays that alias exactly like numpy arrays; every in-place sink (masked/sliced store, augmented assignment, out=, sort/fill/put/copyto) on a buffer that aliases a caller array is reported; (R15.2) evaluate is interpreted for every combination of the constructor's and the per-call save_group_times flag - no path reads an unassigned local; (R15.3) the evaluator's attributes are identical before and after evaluate, constructors do not modify list arguments (incl. shared default lists), default arguments are identical before and after all runs, and constructing an aggregator (with log_times) leaves the evaluator's advertised metric keys untouched; (R15.4) the arguments of the pipeline call are identical for every combination of result_all / save_group_times / log_times / verbose; (R15.5) worker pools are consumed through order-preserving map/starmap only; (R15.6) configuration objects write their attributes only in __init__ and the tabled setters; (R15.7) module globals written on evaluation paths are on an allow-list with reasons. Further: R15.8 (ALIAS/EFFECT as a flow-sensitive may-alias dataflow with return and written-parameter summaries; effects reported at the public boundary), R15.6 extended to the aggregator, R15.7 to module-level containers reached through aliases. Round 6: (R15.6, callees) fixpoint over the functions that modify a list/dict parameter in place (list/dict methods, +=, item stores, handing it on); no method hands a list attribute to one; (R15.3, constructors) no __init__ / dataclass __post_init__ modifies a container argument in place; (R15.7) warn-once registries (module containers whose every read only guards warnings/log calls/their own insertion) are recognised as report-only; R15.7 is the frame condition of every abstract run and is checked under every property; (R15.5) map helpers are found by how their parameters are used and are also verified with a pool that cannot be started. Round 7: (R15.3, shared defaults) a default argument that is an object made when the function is defined (literal or call) is not modified in place, also not through a component or an accessor that hands out self.<attr>. Round 8: item stores into a table the object keeps count as state writes; per-call scratch state (an attribute its owner method resets to an empty value before any read; private helpers included), editing methods that no evaluation / save / load path calls, and lookup tables filled on demand (the stored value is computed from what the key is computed from, never from the table's earlier content) do not; (R15.8) metric kernels and what they call do not write into the masks they receive.",
+    "explanation": "Rounds 4/5: (R15.9) a plain metric call after a call with per-call options hands the kernel the same arguments as on an untouched metric object; (R15.5) parallel map helpers are verified order preserving on 0..5 symbolic items for worker counts 1,2,3,5 and None with 1,2,3,16 cores; R15.3 compares the whole reachable state of evaluators; R15.6 is definite only for state derived from call arguments, the aggregator's cache-like state is decided by R16.8. (R15.1) ALIAS/EFFECT: evaluate (three input types, with and without class groups), panoptic_evaluate, the result constructor and the metric call are interpreted with abstract arrays that alias exactly like numpy arrays; every in-place sink (masked/sliced store, augmented assignment, out=, sort/fill/put/copyto) on a buffer that aliases a caller array is reported; (R15.2) evaluate is interpreted for every combination of the constructor's and the per-call save_group_times flag - no path reads an unassigned local; (R15.3) the evaluator's attributes are identical before and after evaluate, constructors do not modify list arguments (incl. shared default lists), default arguments are identical before and after all runs, and constructing an aggregator (with log_times) leaves the evaluator's advertised metric keys untouched; (R15.4) the arguments of the pipeline call are identical for every combination of result_all / save_group_times / log_times / verbose; (R15.5) worker pools are consumed through order-preserving map/starmap only; (R15.6) configuration objects write their attributes only in __init__ and the tabled setters; (R15.7) module globals written on evaluation paths are on an allow-list with reasons. Further: R15.8 (ALIAS/EFFECT as a flow-sensitive may-alias dataflow with return and written-parameter summaries; effects reported at the public boundary), R15.6 extended to the aggregator, R15.7 to module-level containers reached through aliases. Round 6: (R15.6, callees) fixpoint over the functions that modify a list/dict parameter in place (list/dict methods, +=, item stores, handing it on); no method hands a list attribute to one; (R15.3, constructors) no __init__ / dataclass __post_init__ modifies a container argument in place; (R15.7) warn-once registries (module containers whose every read only guards warnings/log calls/their own insertion) are recognised as report-only; R15.7 is the frame condition of every abstract run and is checked under every property; (R15.5) map helpers are found by how their parameters are used and are also verified with a pool that cannot be started. Round 7: (R15.3, shared defaults) a default argument that is an object made when the function is defined (literal or call) is not modified in place, also not through a component or an accessor that hands out self.<attr>. Round 8: item stores into a table the object keeps count as state writes; per-call scratch state (an attribute its owner method resets to an empty value before any read; private helpers included), editing methods that no evaluation / save / load path calls, and lookup tables filled on demand (the stored value is computed from what the key is computed from, never from the table's earlier content) do not; (R15.8) metric kernels and what they call do not write into the masks they receive. Round 9: (R15.10) an attribute computed from other attributes when the object is built is recomputed (or updated in place) by every later method that rewrites one of those; (R15.11) closures made in a loop and kept for later do not read the loop variable when called (message-only uses excepted); R15.6 follows a local alias of a container the object keeps (stored, or computed once by cached_property - a plain property builds anew) and scans the helper classes the aggregator instantiates; a settings object handed to the pipeline is read as the parameters it bundles, the mapping taken from the callee's own construction of the bundle.",
     "trusted_base": ["numpy aliasing model of DESIGN appendix A.3 (copy/astype/comparisons fresh; basic slicing views)", "multiprocessing.Pool.map/starmap return results in input order", "cc3d/scipy/skimage do not write their input arrays"],
     "assumptions": [],
     "not_decided": ["OS-level nondeterminism of multiprocessing", "floating-point reproducibility of the kernels across worker processes"],
